@@ -77,6 +77,9 @@ func c11StmtKits() map[string][]*ast.Node {
 		"index-before-start-of-empty-array-read":  {set("c11a", ast.Arr()), set("c11t", ast.Idx(ast.Id("c11a"), ast.Un("-", ast.Num("1"))))},
 		"index-before-start-of-empty-array-store": {set("c11a", ast.Arr(ast.Num("1"))), set("c11t", ast.Method(ast.Id("c11a"), "pop")), ast.ExprS(ast.Set(ast.Idx(ast.Id("c11a"), ast.Un("-", ast.Num("1"))), ast.Num("1")))},
 		"index-before-start-of-empty-array-incr":  {set("c11a", ast.Arr()), ast.ExprS(ast.Post("++", ast.Idx(ast.Id("c11a"), ast.Un("-", ast.Num("2")))))},
+		// an index of a kind no object accepts, on an object that has a member under the empty key
+		"bad-kind-index-on-object-with-empty-key-read":  {set("c11o", ast.Obj(ast.KVs("", ast.Num("1")))), set("c11t", ast.Idx(ast.Id("c11o"), ast.True()))},
+		"bad-kind-index-on-object-with-empty-key-store": {set("c11o", ast.Obj(ast.KVs("", ast.Num("1")))), ast.ExprS(ast.Set(ast.Idx(ast.Id("c11o"), ast.Arr(ast.Num("1"))), ast.Num("2")))},
 		"string-index-on-array": {set("c11a", ast.Arr()), ast.ExprS(ast.Set(ast.Idx(ast.Id("c11a"), ast.Str("x")), ast.Num("1")))},
 		"index-too-large":  {set("c11a", ast.Arr()), ast.ExprS(ast.Set(ast.Idx(ast.Id("c11a"), ast.Num("3000000")), ast.Num("1")))},
 		"forin-unset":      {ast.ForIn("c11e", "", ast.Id("c11unset"), ast.Block())},
